@@ -78,11 +78,25 @@ SettleFrom(S, i, keep) ==
        THEN SettleFrom([S EXCEPT !.sess[e.to].pend = IF Len(@) < S.sess[e.to].cap THEN Append(@, e.m) ELSE @], i + 1, keep)
        ELSE SettleFrom(S, i + 1, Append(keep, e))
 Settle(S) == SettleFrom(S, 1, <<>>)
+\* Several sessions publishing at once: which of their events a session that does not read still has
+\* room for depends on the order in which the broker takes the publications.  Everything is kept as
+\* a candidate; when the session reads again, what it got must be a part of it as large as its queue.
+RECURSIVE SettleAllFrom(_, _, _)
+SettleAllFrom(S, i, keep) ==
+  IF i > Len(S.em) THEN [S EXCEPT !.em = keep]
+  ELSE LET e == S.em[i] IN
+       IF e.to \in DOMAIN S.sess /\ S.sess[e.to].stalled
+       THEN SettleAllFrom([S EXCEPT !.sess[e.to].pend = Append(@, e.m)], i + 1, keep)
+       ELSE SettleAllFrom(S, i + 1, Append(keep, e))
 
 Deliver(S) == [s \in DOMAIN S.sess |->
                  LET mine == SelectSeq(S.em, LAMBDA e : e.to = s)
                  IN [i \in 1..Len(mine) |-> mine[i].m]]
 
+CommitAll(S0) == LET S == SettleAllFrom(S0, 1, <<>>) IN
+             /\ cfg' = S.cfg /\ sess' = S.sess /\ subs' = S.subs /\ regs' = S.regs
+             /\ calls' = S.calls /\ used' = S.used /\ hist' = S.hist /\ tst' = S.tst
+             /\ now' = S.now /\ retry' = S.retry /\ out' = Deliver(S)
 Commit(S0) == LET S == Settle(S0) IN
              /\ cfg' = S.cfg /\ sess' = S.sess /\ subs' = S.subs /\ regs' = S.regs
              /\ calls' = S.calls /\ used' = S.used /\ hist' = S.hist /\ tst' = S.tst
